@@ -126,8 +126,16 @@ async fn main() -> Result<()> {
     let filter = EnvFilter::try_from_default_env()
         .unwrap_or_else(|_| EnvFilter::new(cli.log_level().as_str()));
 
+    // In --json mode standard output carries only JSON objects: log lines go to standard error
+    let log_writer = if cli.json {
+        tracing_subscriber::fmt::writer::BoxMakeWriter::new(std::io::stderr)
+    } else {
+        tracing_subscriber::fmt::writer::BoxMakeWriter::new(std::io::stdout)
+    };
+
     fmt()
         .with_env_filter(filter)
+        .with_writer(log_writer)
         .with_target(false)
         .with_thread_ids(false)
         .with_file(false)
